@@ -367,6 +367,31 @@ pub fn decode(t: &mut Tape) -> Case {
         blocks[k + 3].term.defs.insert(0, access);
         g.feat("two-constants-join-then-access");
     }
+    // Pointer plus a register that is a constant on one path and unknown on the other (assigned on one side of a
+    // branch only): the sum must stay "pointer plus anything", in both operand orders.
+    if nblocks >= 4 && g.t.prob(60) {
+        use BinOpType::*;
+        let k = 1 + g.t.below(nblocks - 3); // k: test, k+1: assigns the constant, k+2: join with the addition
+        let r = g.reg();
+        let c = *g.t.choose(&[8i128, 16, 0, -8, 0x100, 1]);
+        let b = |i: usize| sbase + 0x40 * (k + i) as u64;
+        let cond = if g.t.flag() { evar(&var(if g.t.flag() { "ZF" } else { "CF" }, 1)) } else { g.cmp() };
+        blocks[k].term.jmps = vec![
+            jmp(instr_tid(b(0) + 0x3f, 0), Jmp::CBranch { target: blk_tid(b(2)), condition: cond }),
+            jmp(instr_tid(b(0) + 0x3f, 1), Jmp::Branch(blk_tid(b(1)))),
+        ];
+        blocks[k].term.defs.retain(|d| !matches!(&d.term, Def::Assign { var, .. } | Def::Load { var, .. } if *var == r));
+        blocks[k + 1].term.defs.push(assign(instr_tid(b(1) + 0x39, 0), &r, econst(c, 8)));
+        blocks[k + 1].term.jmps = vec![jmp(instr_tid(b(1) + 0x3f, 0), Jmp::Branch(blk_tid(b(2))))];
+        let base = var(*g.t.choose(&["RSP", "RBP", "RDI", "RSI", "RDX"]), 8);
+        let mut d = g.reg();
+        if d == r {
+            d = var(if r.name == "RAX" { "RCX" } else { "RAX" }, 8);
+        }
+        let sum = if g.t.prob(170) { ebin(IntAdd, evar(&base), evar(&r)) } else { ebin(IntAdd, evar(&r), evar(&base)) };
+        blocks[k + 2].term.defs.insert(0, assign(instr_tid(b(2) + 0x3a, 0), &d, sum));
+        g.feat("pointer-plus-maybe-constant");
+    }
     // Calls: extern functions (allocation, pure, pointer-taking, completely unknown) and a small internal
     // callee `g` that reads and writes through its pointer parameters, uses the red zone and the caller's
     // stack arguments and returns with a balanced stack (callee-saved registers are never written by `g`).
